@@ -362,6 +362,9 @@ def c19(ck, thorough):
     calls(ck, "c19_work", "work", scale=3 if thorough else 1, mks=ALLK, an="both", flav="all")
     # every transition of every recorded search with its offset: strictly increasing, inside the span
     steps(ck, "c19", scale=4 if thorough else 1, mks=ALLK)
+    # stream searches: every stream byte is fed to the automaton at most once (rolls included)
+    streams(ck, "c19_stream", "rand", scale=6 if thorough else 1, work=True)
+    streams(ck, "c19_streamenum", "enum", maxstream=3, sizes="1,2", work=True)
 
 
 CHECKS = {
